@@ -49,8 +49,8 @@ theorem relz_vecDrop {c : Cfg} (hw : c.wipe = true) {m : Mach} (h : RelZ m) (v :
 theorem relz_alloc {c : Cfg} {m : Mach} (h : RelZ m) (n : Nat) : RelZ (alloc c m n).1 :=
   relz_of_rel_eq h rfl
 
-theorem relz_vecResize {c : Cfg} (hw : c.wipe = true) {m : Mach} (h : RelZ m) (v : PVec) (n : Nat) :
-    RelZ (vecResize c m v n).1 := by
+theorem relz_vecResize {c : Cfg} (hw : c.wipe = true) {m : Mach} (h : RelZ m) (v : PVec) (n : Nat)
+    (b : UInt8 := 0) : RelZ (vecResize c m v n b).1 := by
   unfold vecResize
   split
   · exact h
@@ -86,12 +86,16 @@ theorem relz_newBytes {c : Cfg} (hw : c.wipe = true) {m : Mach} (h : RelZ m) : R
 theorem relz_plainDrop {c : Cfg} (hw : c.wipe = true) {m : Mach} (h : RelZ m) (v : PVec) :
     RelZ (plainDrop c m v) := relz_vecDrop hw h _
 
+@[simp] theorem protZeroize_rel (c : Cfg) (m : Mach) (v : PVec) (lm : LM) (pm : PM) :
+    (protZeroize c m v lm pm).1.rel = m.rel := by
+  unfold protZeroize protAtWipe
+  by_cases h1 : pm = .rw <;> by_cases h2 : lm = .locked <;> simp [h1, h2]
+
 theorem relz_protDrop {c : Cfg} (hw : c.wipe = true) {m : Mach} (h : RelZ m) (v : PVec) (lm : LM) (pm : PM) :
     RelZ (protDrop c m v lm pm) := by
   unfold protDrop
   apply relz_plainDrop hw
-  apply relz_of_rel_eq h
-  by_cases h1 : pm = .rw <;> by_cases h2 : lm = .locked <;> simp [h1, h2]
+  exact relz_of_rel_eq h (by simp)
 
 theorem relz_objDrop {c : Cfg} (hw : c.wipe = true) {m : Mach} (h : RelZ m) (o : Obj) :
     RelZ (objDrop c m o) := by
@@ -99,7 +103,7 @@ theorem relz_objDrop {c : Cfg} (hw : c.wipe = true) {m : Mach} (h : RelZ m) (o :
   · exact relz_plainDrop hw h _
   · exact relz_protDrop hw h _ _ _
 
-theorem relz_lockV {c : Cfg} (hw : c.wipe = true) {m : Mach} (h : RelZ m) (v : PVec) (pm : PM) :
+theorem relz_lockV {c : Cfg} (hw : c.wipe = true) {m : Mach} (h : RelZ m) (v : PVec) (pm : LM × PM) :
     RelZ (lockV c m v pm).1 := by
   have h1 : RelZ (dryocMlock c m (ptr c v) v.len).1 := relz_of_rel_eq h (by simp)
   unfold lockV
@@ -108,9 +112,9 @@ theorem relz_lockV {c : Cfg} (hw : c.wipe = true) {m : Mach} (h : RelZ m) (v : P
   · exact h1
   · exact relz_protDrop hw h1 _ _ _
 
-theorem relz_lockedResize {c : Cfg} (hw : c.wipe = true) {m : Mach} (h : RelZ m) (v : PVec) (n : Nat) :
-    RelZ (lockedResize c m v n).1 := by
-  have h2 := relz_lockV hw (relz_vecResize hw h PVec.empty n) (vecResize c m PVec.empty n).2 .rw
+theorem relz_lockedResize {c : Cfg} (hw : c.wipe = true) {m : Mach} (h : RelZ m) (v : PVec) (rc : LM × PM)
+    (n : Nat) (b : UInt8 := 0) : RelZ (lockedResize c m v rc n b).1 := by
+  have h2 := relz_lockV hw (relz_vecResize hw h PVec.empty n b) (vecResize c m PVec.empty n b).2 recNew
   unfold lockedResize
   simp only []
   split
@@ -119,14 +123,14 @@ theorem relz_lockedResize {c : Cfg} (hw : c.wipe = true) {m : Mach} (h : RelZ m)
 
 /-! ### tokens -/
 
-theorem relz_doLock {c : Cfg} (hw : c.wipe = true) {s : State} (h : RelZ s.m) (i : Nat) (sl : Slot) (pm : PM) :
-    RelZ (doLock c s i sl pm).2.m := by
+theorem relz_doLock {c : Cfg} (hw : c.wipe = true) {s : State} (h : RelZ s.m) (i : Nat) (sl : Slot)
+    (rc : LM × PM) (pm : PM) : RelZ (doLock c s i sl rc pm).2.m := by
   unfold doLock; simp only []
   split <;> exact relz_lockV hw h _ _
 
 theorem relz_doNewLocked {c : Cfg} (hw : c.wipe = true) {s : State} {m : Mach} (h : RelZ m) (v : PVec)
     (src : Option Bytes) (ro rnd : Bool) : RelZ (doNewLocked c s m v src ro rnd).2.m := by
-  have h1 := relz_lockV hw h v .rw
+  have h1 := relz_lockV hw h v recNew
   unfold doNewLocked; simp only []
   split
   · simp only [push]
@@ -137,7 +141,7 @@ theorem relz_doNewLocked {c : Cfg} (hw : c.wipe = true) {s : State} {m : Mach} (
 
 theorem relz_doCloneLocked {c : Cfg} (hw : c.wipe = true) {s : State} (h : RelZ s.m) (sl : Slot) (ro : Bool) :
     RelZ (doCloneLocked c s sl ro).2.m := by
-  have h1 := relz_lockedResize hw h PVec.empty sl.o.v.len
+  have h1 := relz_lockedResize hw h PVec.empty (.locked, .rw) sl.o.v.len
   unfold doCloneLocked; simp only []
   split
   · exact h1
@@ -145,6 +149,101 @@ theorem relz_doCloneLocked {c : Cfg} (hw : c.wipe = true) {s : State} (h : RelZ 
     split
     · exact relz_of_rel_eq h1 (by simp)
     · exact h1
+
+theorem relz_doFromSlice {c : Cfg} (hw : c.wipe = true) {s : State} (h : RelZ s.m) (n : Nat) (ro : Bool) :
+    RelZ (doFromSlice c s n ro).2.m := by
+  unfold doFromSlice
+  split
+  · split
+    · exact h
+    · exact relz_doNewLocked hw (relz_newBytes hw h) _ _ _ _
+  · exact relz_doNewLocked hw (relz_vecResize hw h _ _) _ _ _ _
+
+theorem relz_cloneLockedObj {c : Cfg} (hw : c.wipe = true) {m : Mach} (h : RelZ m) (o : Obj) (ro : Bool) :
+    RelZ (cloneLockedObj c m o ro).1 := by
+  have h1 := relz_lockedResize hw h PVec.empty (.locked, .rw) o.v.len
+  unfold cloneLockedObj; simp only []
+  split
+  · exact h1
+  · simp only []
+    split
+    · exact relz_of_rel_eq h1 (by simp)
+    · exact h1
+
+theorem relz_cloneObj {c : Cfg} (hw : c.wipe = true) {m : Mach} (h : RelZ m) (o : Obj) :
+    ∀ r, cloneObj c m o = some r → RelZ r.1 := by
+  intro r hr
+  unfold cloneObj at hr
+  split at hr
+  · simp only [Option.some.injEq] at hr; rw [← hr]; exact relz_vecClone h _
+  · simp only [Option.some.injEq] at hr; rw [← hr]; exact relz_vecClone h _
+  · simp only [Option.some.injEq] at hr; rw [← hr]
+    exact relz_of_rel_eq (relz_vecClone (c := c) h o.v) (by simp)
+  · split at hr
+    · simp at hr
+    · simp only [Option.some.injEq] at hr; rw [← hr]; exact relz_cloneLockedObj hw h _ _
+  · split at hr
+    · simp at hr
+    · simp only [Option.some.injEq] at hr; rw [← hr]; exact relz_cloneLockedObj hw h _ _
+  · simp at hr
+
+theorem relz_opCloneFrom {c : Cfg} (hw : c.wipe = true) {s : State} (h : RelZ s.m) (i j : Nat) :
+    RelZ (opCloneFrom c s i j).2.m := by
+  unfold opCloneFrom
+  split
+  · exact h
+  split
+  · rename_i d src _ _
+    split
+    · exact h
+    split
+    · cases hp : cloneObj c s.m src.o with
+      | none => exact h
+      | some r1 =>
+        have h1 := relz_cloneObj hw h src.o r1 hp
+        obtain ⟨m1, ot⟩ := r1
+        cases ot with
+        | none => exact h1
+        | some tmp =>
+          simp only []
+          cases hq : cloneObj c m1 src.o with
+          | none => exact relz_objDrop hw h1 _
+          | some r2 =>
+            have h2 := relz_cloneObj hw h1 src.o r2 hq
+            obtain ⟨m2, oo⟩ := r2
+            cases oo with
+            | none => exact relz_objDrop hw h2 _
+            | some o => exact relz_objDrop hw (relz_objDrop hw h2 _) _
+    · cases hp : cloneObj c s.m src.o with
+      | none => exact h
+      | some r1 =>
+        have h1 := relz_cloneObj hw h src.o r1 hp
+        obtain ⟨m1, oo⟩ := r1
+        cases oo with
+        | none => exact h1
+        | some o => exact relz_objDrop hw h1 _
+  · exact h
+
+theorem relz_seqFill {c : Cfg} (hw : c.wipe = true) (b : UInt8) (k : Nat) : ∀ r : Mach × PVec, RelZ r.1 →
+    RelZ (seqFill c b k r).1 := by
+  induction k with
+  | zero => intro r h; exact h
+  | succ k ih => intro r h; simp only [seqFill]; exact ih _ (relz_vecResize hw h _ _)
+
+theorem relz_opSerde {c : Cfg} (hw : c.wipe = true) {s : State} (h : RelZ s.m) (json : Bool) (n : Nat) :
+    RelZ (opSerde c s json n).2.m := by
+  unfold opSerde
+  split
+  · split
+    · have h1 := relz_lockV hw (relz_newBytes hw (c := c) h) (newBytes c s.m).2 recNew
+      unfold doSerdeArrJson; simp only []
+      split
+      · split
+        · exact h1
+        · exact relz_protDrop hw h1 _ _ _
+      · exact h1
+    · exact relz_doNewLocked hw (relz_seqFill hw _ _ (s.m, PVec.empty) h) _ _ _ _
+  · exact relz_doFromSlice hw h _ _
 
 theorem relz_stepCore {c : Cfg} (hw : c.wipe = true) {s : State} (h : RelZ s.m) (t : Tok) :
     RelZ (stepCore c s t).2.m := by
@@ -174,8 +273,8 @@ theorem relz_stepCore {c : Cfg} (hw : c.wipe = true) {s : State} (h : RelZ s.m) 
   case lock =>
     unfold opLock; apply live; intro sl
     split
-    · exact relz_doLock hw h _ _ _
-    · exact relz_doLock hw h _ _ _
+    · exact relz_doLock hw h _ _ _ _
+    · exact relz_doLock hw h _ _ _ _
     · exact h
   case unlock =>
     unfold opUnlock; apply live; intro sl
@@ -210,14 +309,14 @@ theorem relz_stepCore {c : Cfg} (hw : c.wipe = true) {s : State} (h : RelZ s.m) 
       · exact h
       · exact relz_doCloneLocked hw h _ _
     · exact h
-  case resize n =>
+  case resize n b =>
     unfold opResize; apply live; intro sl
     split
     · exact h
     split
-    · exact relz_vecResize hw h _ _
-    · exact relz_vecResize hw h _ _
-    · have h1 := relz_lockedResize hw h sl.o.v n
+    · exact relz_vecResize hw h _ _ _
+    · exact relz_vecResize hw h _ _ _
+    · have h1 := relz_lockedResize hw h sl.o.v sl.o.rcd n b
       simp only []
       split
       · exact h1
@@ -263,6 +362,21 @@ theorem relz_stepCore {c : Cfg} (hw : c.wipe = true) {s : State} (h : RelZ s.m) 
       all_goals exact h
   case wrap => exact h
   case bad => exact h
+  case zeroize =>
+    unfold opZeroize; apply live; intro sl
+    split
+    · exact h
+    · exact relz_of_rel_eq h (by simp [setSlot])
+  case clonefrom j => exact relz_opCloneFrom hw h _ _
+  case panicdrop =>
+    unfold opDrop; apply live; intro sl
+    exact relz_objDrop hw h _
+  case stacklock =>
+    unfold opStackLock
+    split
+    · exact relz_doNewLocked hw (relz_newBytes hw h) _ _ _ _
+    · exact h
+  case serde js n => exact relz_opSerde hw h _ _
 
 theorem relz_step {c : Cfg} (hw : c.wipe = true) (s : State) (t : Tok) : RelZ (step c s t).2.m :=
   relz_stepCore hw (s := resetRel s) (fun _ he => by simp [resetRel] at he) t
